@@ -39,7 +39,7 @@ RULE = ('A: (host chain of depth<=K) x (node form of the hole sort: every primit
         'annotated primitive in argument position, string needing an escape, negative int, bytes, nested/empty sequence, '
         'or whose text takes the multi-line layout')
 BOUND = {
-    'quick': 'A: chains depth<=1 with 9 annotation lists, depth 2 with 4; L: strings len<=2 over 13 special chars + all 96 '
+    'quick': 'A: chains depth<=1 with 9 annotation lists, depth 2 with 4 on reduced forms; L: strings len<=2 over 13 special chars + all 96 '
              'single chars, 14 ints, 6 byte strings; B: 181 prims x tuples len<=2 over 8 shapes x 2 x 8 hosts',
     'thorough': 'A: chains depth<=2 with 13 annotation lists, depth 3 with 3 on reduced forms; L: strings len<=3; '
                 'B: tuples len<=3',
@@ -575,7 +575,7 @@ def _plan(tier):
     """[(family, sort, depth, annset, reduced)]"""
     if tier == 'quick':
         return [('A', s, 0, 'full', False) for s in 'TDICX'] + [('A', s, 1, 'full', False) for s in 'TDICX'] + \
-               [('A', s, 2, 'small', False) for s in 'TDICX']
+               [('A', s, 2, 'small', True) for s in 'TDICX']
     return [('A', s, d, 'full', False) for s in 'TDICX' for d in (0, 1, 2)] + [('A', s, 3, 'tiny', True) for s in 'TDICX']
 
 
@@ -599,7 +599,9 @@ def shards(tier, seed):
         nf = len(_forms(sort, tier, annset, reduced))
         k = max(1, min(nch, (nch * nf) // 6000))
         out += [(fam, sort, depth, annset, reduced, i, k) for i in range(k)]
-    out += [('L', kind, 0, '', False, i, 4) for kind in ('string', 'int', 'bytes') for i in range(4)]
+    for kind in ('string', 'int', 'bytes'):
+        k = 16 if (kind == 'string' and tier != 'quick') else 4
+        out += [('L', kind, 0, '', False, i, k) for i in range(k)]
     from pytezos.michelson.tags import prim_tags
     prims = list(prim_tags)
     nb = 32 if tier == 'quick' else 181
